@@ -19,9 +19,9 @@ def run(tier: str, keep: bool = False) -> int:
     fam = ('Numbered({ [SoloBase(2, sl, n) EXCEPT !.mode = m, !.closure = c, !.putMode = pm, !.putClosure = pc, !.seq0 = s0, !.seqW = 1] : '
            'sl \\in {1, 2}, n \\in {0, 3}, m \\in {"ACK", "UNACK"}, c \\in BOOLEAN, pm \\in {"none", "ACK", "UNACK"}, '
            'pc \\in {"none", "true", "false"}, s0 \\in {0, 255} })')
-    r.solo("puts", "S", fam, ["put", "putodd", "poll"], 4 if q else 5, ["C19", "C10"], limit=6000 if q else 150000)
+    r.solo("puts", "S", fam, ["put", "putodd", "poll"], 4, ["C19", "C10"], limit=6000 if q else 60000)
     r.solo("busy", "S", 'Numbered({ SoloBase(2, 1, 2), [SoloBase(2, 1, 2) EXCEPT !.mode = "UNACK", !.closure = TRUE] })',
-           ["put", "putodd", "poll", "ack", "fin", "cancel"], 5 if q else 6, ["C19", "C10"], pre=[["put"]], limit=4000 if q else 100000)
+           ["put", "putodd", "poll", "ack", "fin", "cancel"], 5 if q else 6, ["C19", "C10"], pre=[["put"]], limit=4000 if q else 60000)
     r.driver("src_nominal", 400 if q else 5000, props)
     r.driver("src_random", 300 if q else 4000, ["C19", "C10"], leave=0.0)
     r.driver("shared_provider", 100 if q else 1500, ["C19"])
